@@ -105,6 +105,31 @@ Proof.
   intros _. exists f, g. split; [reflexivity|]. split; [|exact Et]. now apply callback_checks_inr in E as [Hp _].
 Qed.
 
+(* (e): the store. A callback that does not end in a session leaves the store as it was - every key and every value -
+   in particular when a browser-side check fails; one that does changes nothing but the entry of the new session. *)
+Theorem refused_callback_store_unchanged c tok jti r newk newv s :
+  co_session (callback c tok jti r) = false -> callback_store c tok jti r newk newv s = s.
+Proof. unfold callback_store. intros ->. reflexivity. Qed.
+
+Theorem failed_check_store_unchanged c tok jti r e newk newv s :
+  callback_checks c r = inl e -> callback_store c tok jti r newk newv s = s.
+Proof. intros H. apply refused_callback_store_unchanged. exact (proj2 (failed_check_sends_nothing c tok jti r e H)). Qed.
+
+Lemma astore_get_remove_other k k' s : k <> k' -> astore_get k (astore_remove k' s) = astore_get k s.
+Proof.
+  intros Hne. induction s as [|[k0 v0] s IH]; cbn; [reflexivity|].
+  destruct (N.eqb k' k0) eqn:E1.
+  - apply N.eqb_eq in E1. subst k0. destruct (N.eqb k k') eqn:E2; [apply N.eqb_eq in E2; contradiction|exact IH].
+  - cbn. destruct (N.eqb k k0); [reflexivity|exact IH].
+Qed.
+
+Theorem callback_store_other_keys c tok jti r newk newv s k :
+  k <> newk -> astore_get k (callback_store c tok jti r newk newv s) = astore_get k s.
+Proof.
+  intros Hne. unfold callback_store, astore_write. destruct (co_session (callback c tok jti r)); [|reflexivity].
+  cbn. destruct (N.eqb k newk) eqn:E; [apply N.eqb_eq in E; contradiction|]. now apply astore_get_remove_other.
+Qed.
+
 (* binding to the attempt: the cookie of attempt rnd1 passes only with the state of the same attempt *)
 Theorem callback_binds_attempt c q1 i1 rnd1 ref1 rnd2 r f :
   cb_cookie r = CkEnc (a_key c) (login_cookie_fields c q1 i1 rnd1 ref1) ->
@@ -499,4 +524,33 @@ Proof.
   intros Hp. unfold login_with. destruct (a_par c); cbn [lo_browser].
   - intros [H|[H|[]]]; inversion H; subst; [discriminate|exact Hp].
   - intros H. apply auth_params_values in H as [(s & Hx)|[Hx|[Hx|Hx]]]; subst x; try discriminate; intros E; inversion E; lia.
+Qed.
+
+(* client assertions of any number of back-channel requests, overlapping or not: with private-key authentication every
+   request carries an assertion, and no two of them share a jti *)
+Lemma back_channel_auths_ge c jti n :
+  a_use_secret c = false -> Forall (fun p => exists j, assertion_of p = Some j /\ jti <= j) (back_channel_auths c jti n).
+Proof.
+  intros Hs. revert jti. induction n as [|n IH]; intros jti; cbn; [constructor|].
+  constructor.
+  - unfold client_auth. rewrite Hs. cbn. exists jti. split; [reflexivity|lia].
+  - eapply Forall_impl; [|apply IH]. cbn. intros p (j & Hj & Hle). exists j. split; [exact Hj|lia].
+Qed.
+
+Theorem back_channel_assertions_unique c jti n :
+  a_use_secret c = false -> NoDup (map assertion_of (back_channel_auths c jti n)).
+Proof.
+  intros Hs. revert jti. induction n as [|n IH]; intros jti; cbn; [constructor|].
+  constructor; [|apply IH].
+  unfold client_auth at 1. rewrite Hs. cbn. intros Hin. apply in_map_iff in Hin as (p & Hp & Hin).
+  pose proof (back_channel_auths_ge c (jti + 1) n Hs) as Hf. rewrite Forall_forall in Hf.
+  destruct (Hf p Hin) as (j & Hj & Hle). rewrite Hj in Hp. inversion Hp. lia.
+Qed.
+
+Theorem back_channel_every_request_authenticated c jti n p :
+  a_use_secret c = false -> In p (back_channel_auths c jti n) -> exists j, p = client_auth c j /\ assertion_of p = Some j.
+Proof.
+  intros Hs. revert jti. induction n as [|n IH]; intros jti; cbn; [contradiction|].
+  intros [<-|Hin]; [|eapply IH; eauto].
+  exists jti. split; [reflexivity|]. unfold client_auth. rewrite Hs. reflexivity.
 Qed.
